@@ -49,6 +49,8 @@ pub struct ESpec {
     pub crc_override: Option<u32>,
     /// name bytes of the central record when they differ from the local header's (None = same)
     pub central_name: Option<Vec<u8>>,
+    /// "version needed to extract" in both headers (None = 20, or 45 with ZIP64 fields)
+    pub version_needed: Option<u16>,
 }
 
 impl Default for ESpec {
@@ -75,6 +77,7 @@ impl Default for ESpec {
             extra_flags: 0,
             crc_override: None,
             central_name: None,
+            version_needed: None,
         }
     }
 }
@@ -211,7 +214,7 @@ pub fn build(spec: &Spec) -> (Vec<u8>, Layout) {
         lextra.extend_from_slice(&aes_extra);
         lextra.extend_from_slice(&e.local_extra);
         p32(&mut out, 0x04034b50);
-        p16(&mut out, if e.zip64_local { 45 } else { 20 });
+        p16(&mut out, e.version_needed.unwrap_or(if e.zip64_local { 45 } else { 20 }));
         p16(&mut out, flags);
         p16(&mut out, method_field);
         p16(&mut out, e.time);
@@ -305,7 +308,7 @@ pub fn build(spec: &Spec) -> (Vec<u8>, Layout) {
         }
         p32(&mut out, 0x02014b50);
         p16(&mut out, e.made_by);
-        p16(&mut out, if e.zip64_central != 0 { 45 } else { 20 });
+        p16(&mut out, e.version_needed.unwrap_or(if e.zip64_central != 0 { 45 } else { 20 }));
         p16(&mut out, d.flags);
         p16(&mut out, d.method_field);
         p16(&mut out, e.time);
@@ -470,7 +473,7 @@ impl ESpec {
             "local_extra": crate::util::hex(&self.local_extra), "central_extra": crate::util::hex(&self.central_extra),
             "comment": crate::util::hex(&self.comment), "made_by": self.made_by, "ext_attr": self.ext_attr,
             "time": self.time, "date": self.date, "enc": enc, "gap_before": self.gap_before, "extra_flags": self.extra_flags,
-            "crc_override": self.crc_override, "central_name": self.central_name.as_ref().map(|p| crate::util::hex(p)),
+            "crc_override": self.crc_override, "central_name": self.central_name.as_ref().map(|p| crate::util::hex(p)), "version_needed": self.version_needed,
         })
     }
     pub fn from_json(v: &Value) -> ESpec {
@@ -509,6 +512,7 @@ impl ESpec {
             extra_flags: v["extra_flags"].as_u64().unwrap_or(0) as u16,
             crc_override: v["crc_override"].as_u64().map(|x| x as u32),
             central_name: v["central_name"].as_str().map(crate::util::unhex),
+            version_needed: v["version_needed"].as_u64().map(|x| x as u16),
         }
     }
 }
